@@ -11,7 +11,7 @@ use crate::val::Val;
 
 pub const ID: &str = "C15";
 
-pub const RULE: &str = "cases = (grammar, input). Families with generated parameters: length-prefixed (digit.ignore_with_ctx / then_with_ctx(item.repeated().configure(|c, n| c.exactly(n)).collect()), nested two levels, also at_most(n) and try_configure(Err on odd n)), delimiter-echo (open.then_with_ctx(body.then(just(..).configure(|c, ctx| c.seq(ctx)))), raw-string-like), indentation-like (with_ctx inside repeated inside with_ctx, map_ctx in between), each on every string over a 4-symbol alphabet up to length L; plus random C01/C02-class grammars with providers (with_ctx(v), ignore_with_ctx, then_with_ctx, map_ctx(f)) and consumers (map_with(ctx), just.configure(seq = ctx), repeated().configure(exactly / at_most from ctx), try_configure(Err on odd)) inserted at random nodes (providers nested up to 3 deep, inside repetitions, choices, lookahead, recursion). Oracles: (1) the reference threads an explicit context value: a consumer sees the value of the nearest enclosing provider on the current path for this very attempt; configured parsers behave as the statically configured parser with the same settings; a try_configure error is a failure of that parser at its position; compared on acceptance, output (which embeds every observed context) and the final error position; (2) metamorphic, reference-free: wherever the nearest provider of a consumer is a with_ctx(constant) (through map_ctx), replacing the consumer by its static equivalent (just(v), repeated().exactly(n) / at_most(n)) must not change acceptance or output. A statically typed family compares run-time configuration with the statically configured parser for every (at_least, at_most) pair in 0..3 (also at_least > at_most), both setter orders, configure / try_configure, zero-sized and data-carrying contexts, collected and used directly, and configuration through a reference, on every string over {a b} up to length 6 / 8. NON-TRIVIAL = two DIFFERENT context values reached the same consumer node within one parse (the only situation in which a stale context is observable), or a try_configure error occurred; distinct = distinct (sub-check, grammar, input).";
+pub const RULE: &str = "cases = (grammar, input). Families with generated parameters: length-prefixed (digit.ignore_with_ctx / then_with_ctx(item.repeated().configure(|c, n| c.exactly(n)).collect()), nested two levels, also at_most(n) and try_configure(Err on odd n)), delimiter-echo (open.then_with_ctx(body.then(just(..).configure(|c, ctx| c.seq(ctx)))), raw-string-like), indentation-like (with_ctx inside repeated inside with_ctx, map_ctx in between), each on every string over a 4-symbol alphabet up to length L; plus random C01/C02-class grammars with providers (with_ctx(v), ignore_with_ctx, then_with_ctx, map_ctx(f)) and consumers (map_with(ctx), just.configure(seq = ctx), repeated().configure(exactly / at_most from ctx), try_configure(Err on odd)) inserted at random nodes (providers nested up to 3 deep, inside repetitions, choices, lookahead, recursion). Oracles: (1) the reference threads an explicit context value: a consumer sees the value of the nearest enclosing provider on the current path for this very attempt; configured parsers behave as the statically configured parser with the same settings; a try_configure error is a failure of that parser at its position; compared on acceptance, output (which embeds every observed context) and the final error position; (2) metamorphic, reference-free: wherever the nearest provider of a consumer is a with_ctx(constant) (through map_ctx), replacing the consumer by its static equivalent (just(v), repeated().exactly(n) / at_most(n)) must not change acceptance or output. A statically typed family compares run-time configuration with the statically configured parser for every (at_least, at_most) pair in 0..3 (also at_least > at_most), both setter orders, configure / try_configure, zero-sized and data-carrying contexts, collected and used directly, and configuration through a reference, on every string over {a b} up to length 6 / 8. just(placeholder).configure(seq) with empty, shorter, equal and longer sequences against the static just(seq). NON-TRIVIAL = two DIFFERENT context values reached the same consumer node within one parse (the only situation in which a stale context is observable), or a try_configure error occurred; distinct = distinct (sub-check, grammar, input).";
 
 pub const ASSUMPTIONS: &[&str] = &[
     "reference semantics: context = value of the nearest enclosing provider on the current path; a repetition configured from context uses the context visible where the repetition starts",
